@@ -179,13 +179,16 @@ func replayC11(cfg WorkerCfg) int {
 	}
 	env := NewC11Env()
 	res := RunC11Case(env, doc.Case, doc.Seed)
-	rep := false
+	rep, repKind := false, false
 	for _, w := range res.Violations {
 		if w.Kind == doc.Violation.Kind && w.API == doc.Violation.API {
 			rep = true
 		}
+		if w.Kind == doc.Violation.Kind {
+			repKind = true // the same oracle fails again, through the other API
+		}
 	}
-	cfg.Emit(map[string]interface{}{"type": "replay", "reproduced": rep, "result": res})
+	cfg.Emit(map[string]interface{}{"type": "replay", "reproduced": rep, "reproduced_same_kind": repKind, "result": res})
 	return 0
 }
 
